@@ -1585,8 +1585,9 @@ func (e *Entry) merge(prefix *Value, namespace *Value, oe *Entry) {
 }
 
 // nless returns -1 if a is less than b, 0 if a == b, and 1 if a > b.
-// If a and b are both numeric, then nless compares them as numbers,
-// otherwise they are compared lexicographically.
+// If a and b are both numeric, then nless compares them as numbers; a number
+// is less than any non-numeric text; otherwise they are compared
+// lexicographically.
 func nless(a, b string) int {
 	an, ae := strconv.Atoi(a)
 	bn, be := strconv.Atoi(b)
@@ -1600,6 +1601,14 @@ func nless(a, b string) int {
 		default:
 			return 0
 		}
+	case ae == nil:
+		// Only a is a number. Numbers sort before other text: comparing
+		// them as text would not be consistent with the numeric order
+		// ("9" < "10" < "1x" < "9") and the sort result would then
+		// depend on the order the errors were found in.
+		return -1
+	case be == nil:
+		return 1
 	case a < b:
 		return -1
 	case a > b:
